@@ -482,3 +482,49 @@ func Verif_C12_ClearIsolation() {
 	}
 	vsym.Reach("end")
 }
+
+// Index build isolation: rebuilding a hash index of table T reads only T's hashes and indexes only T's
+// primary keys - also when another table's name extends T by bytes that sort on either side of ':'.
+// dobuildIndexes forks one goroutine per table and joins them: executed as one schedule (inline).
+func Verif_C12_IndexBuildIsolation() {
+	vsym.InlineGoroutines()
+	v := vOpenDB()
+	defer v.done()
+	ts := int64(1700000000) * 1e9
+	b := vsym.U8("suffix")
+	vsym.Assume(b != ':')
+	other := append([]byte{'t', b}, []byte(":a")...) // key "a" of table "t<b>"
+	field := []byte("f")
+	_, err := v.db.HSet(ts, false, []byte("t:a"), field, []byte("1"))
+	vsym.Assert(err == nil, "HSET t:a")
+	_, err = v.db.HSet(ts, false, other, field, []byte("1"))
+	vsym.Assert(err == nil, "HSET t<b>:a")
+	if vsym.Choose("third", 2) == 1 {
+		_, err = v.db.HSet(ts, false, []byte("t:b"), field, []byte("2"))
+		vsym.Assert(err == nil, "HSET t:b")
+	}
+	hindex := &HsetIndex{Table: []byte("t")}
+	hindex.Name = []byte("i")
+	hindex.IndexField = field
+	hindex.ValueType = StringV
+	hindex.State = BuildingIndex
+	c := NewIndexContainer()
+	c.hsetIndexes[string(field)] = hindex
+	v.db.indexMgr.tableIndexes["t"] = c
+	v.db.indexMgr.dobuildIndexes(v.db, make(chan struct{}))
+	vsym.Assert(hindex.State == BuildDoneIndex, "the build finishes")
+	it, err := v.db.NewDBRangeIterator(encodeHsetIndexStartKey(hindex.Table, hindex.Name), encodeHsetIndexStopKey(hindex.Table, hindex.Name), common.RangeROpen, false)
+	vsym.Assert(err == nil, "iterator")
+	n := 0
+	for ; it.Valid(); it.Next() {
+		_, _, _, pk, derr := decodeHsetIndexStringKey(it.Key())
+		vsym.Assert(derr == nil, "index key decodes")
+		vsym.Assert(len(pk) == 3 && pk[0] == 't' && pk[1] == ':', "the index of table t holds only primary keys of table t")
+		n++
+		if n > 4 {
+			break
+		}
+	}
+	it.Close()
+	vsym.Reach("end")
+}
